@@ -74,7 +74,7 @@ class Offers:
                 self.compression = True
 
 
-def monitor(ops, outs, pid):
+def monitor(ops, outs, pid, extras=None):
     """returns [(op index, message)] for the clauses of property `pid` (C02 / C03 / C05 / C13)"""
     fails = []
     flags = 0
@@ -143,7 +143,13 @@ def monitor(ops, outs, pid):
             data = unhx(t[1]) or b""
             off.feed(data)
             rxbuf += data
-            if b"<success" in rxbuf and b"xmpp-sasl" in rxbuf:
+            if extras is not None:
+                # what the REAL parser delivered as a top-level element (text inside an unfinished
+                # or foreign element is not a <success/>)
+                for l in (extras[i] if i < len(extras) else []):
+                    if l.startswith("pe stanza (73756363657373 75726e3a696574663a706172616d733a786d6c3a6e733a786d70702d7361736c"):
+                        success_now = True
+            elif b"<success" in rxbuf and b"xmpp-sasl" in rxbuf:
                 success_now = True      # (an op writes before it reads)
             # complete top-level elements the server sent (coarse scan, enough for counting)
             for m in re.finditer(rb"<(message|presence|iq|foo)\b[^>]*?(/>|>.*?</\1>)", rxbuf, re.S):
@@ -348,7 +354,7 @@ def pe_events(extra):
             if a != "-":
                 for kv in a.split(";"):
                     k, _, v = kv.partition("=")
-                    attrs[bytes.fromhex(k)] = bytes.fromhex(v)
+                    attrs[bytes.fromhex(k)] = b"" if v in (".", "") else bytes.fromhex(v)
         except ValueError:
             continue
         evs.append((name, attrs, ns == NS_SM_B))
